@@ -4,6 +4,10 @@ import json, sys
 
 ENGINE = "gsx"
 CHECKS = {
+ "C08": dict(
+   text="An independent reference codec for the Part 6 chunk layout (written in the harness on top of the standard library primitives, sharing no code with uasc/uapolicy) is executed symbolically together with the real send and receive paths: every chunk gopcua emits is verified, decrypted and compared by the reference, every chunk the reference seals must be accepted by gopcua with the same content; nonces, sequence numbers and body bytes are symbolic, primitives are uninterpreted so equality is decided for all values.",
+   note="Single final chunks (MSG under five policies x two modes; OPN requests under five policies x key size pairs). Multi-chunk messages, OPN responses and the primitives themselves are outside. Trusted: go/ssa, gsx, cvc5, the reference codec in the harness.",
+   ref="DESIGN.md §5 C08"),
  "C28": dict(
    text="Two kernels executed symbolically: (1) the real node monitor on a real client against a scripted server with its own handle->node view; the server reports a symbolic value for a registered / removed / refused / unknown client handle and the delivered message is compared with that view; (2) a raw client on the real server pipeline writes symbolic values to two monitored nodes and publishes until the server is quiet; the last published value per item is compared with the node's current value.",
    note="Kernel decomposition (client side, server side); the end-to-end run monitor+client+server is not encoded. Bounded schedules (<= 1 forced context switch), <= 3 writes. Trusted: go/ssa, gsx, z3.",
@@ -142,7 +146,6 @@ CHECKS = {
    ref="DESIGN.md §5 C04"),
 }
 NOT_APPLICABLE = {
- "C08": "needs an independent Part 6 layout implementation in the harness compared byte for byte through the uninterpreted primitives; expressible with the engine but not built in this revision (DESIGN §6); C07 only sees layout errors that break gopcua-to-gopcua traffic",
  "C25": "connection lifecycle under real TCP resets, server restarts and wall-clock outages: the quantified object is a fault sequence over the OS network stack and goroutine population, not a computation that can be encoded as solver queries within reach (DESIGN §6)",
  "C36": "data-race freedom is defined over the Go memory model / race detector happens-before relation on real schedules; the symbolic executor has no encoding of either (DESIGN §6)",
  "C37": "a finite matrix of real RSA/AES/x509/TCP executions; nothing in it is symbolic and with idealised crypto the result would say nothing about interoperability: enumeration of concrete runs is outside this technique (DESIGN §6)",
